@@ -51,8 +51,12 @@ def gen_program(rng, uni, tid, length, all_tids=()):
             prog.append([tid, de, 0, [pid, 0, 0, 0]])
             if rng.random() < 0.85:
                 prog.append([tid, se, 0, name()])
-        elif r < 0.4:
+        elif r < 0.36:
             prog.append([tid, rng.choice([sn, se]), 0, pc.pack_name(rng)])     # STRING without DATA
+        elif r < 0.4 and 'TRACE_DATA_THREAD_TERMINATE' in uni.by_name and all_tids:
+            # a thread of this history (another one, or this one) is reported terminated - by whoever logs the record - while it
+            # still has calls open and announcements pending: nothing of that thread is dropped
+            prog.append([tid, uni.by_name['TRACE_DATA_THREAD_TERMINATE'][0], 0, [rng.choice(list(all_tids)), 0, 0, 0]])
         elif r < 0.48:
             prog.append([tid, px, 0, name()])                                   # the process exits
         elif r < 0.56 and 'PERF_THD_Data' in uni.by_name:
